@@ -19,6 +19,7 @@ module of the repository (lazily interpreted), else it becomes an AutoMock: an i
 attributes read and set, but can never influence a decision (truth value, comparison, arithmetic, iteration raise Unsupported).
 """
 import ast
+import types as _types
 import builtins as _bi
 import collections
 import itertools
@@ -294,6 +295,64 @@ class ClassRef(object):
         return inst
 
 
+def build_real_enum(interp, cref):
+    """a repository class whose base is a REAL enum class (the world maps `enum` to the stdlib module): a real Enum with the same members, whose methods,
+    properties and class methods run the repository's code through the interpreter.  None when the class is not such an enum."""
+    import enum as _enum
+    try:
+        bases = cref.bases()
+    except Exception:
+        return None
+    real_bases = [b for b in bases if isinstance(b, type) and issubclass(b, _enum.Enum)]
+    if not real_bases or len(bases) != 1:
+        return None
+    base = real_bases[0]
+    ns = _enum.EnumMeta.__prepare__(cref.name, (base,))
+    fr = Frame(cref.ctx)
+
+    def method(cl):
+        def f(self_, *a, **k):
+            return interp.call(cl.bind(self_), list(a), k)
+        f.__name__ = cl.name
+        return f
+    aliases = []
+    for st in cref.node.body:
+        if isinstance(st, ast.Assign) and len(st.targets) == 1 and isinstance(st.targets[0], ast.Name):
+            nm = st.targets[0].id
+            if isinstance(st.value, ast.Name) and any(isinstance(x, ast.FunctionDef) and x.name == st.value.id for x in cref.node.body):
+                aliases.append((nm, st.value.id))           # __call__ = func
+                continue
+            ns[nm] = interp.ev(st.value, fr)
+        elif isinstance(st, ast.FunctionDef):
+            decos = [d.id if isinstance(d, ast.Name) else (d.attr if isinstance(d, ast.Attribute) else "?") for d in st.decorator_list]
+            cl = Closure(interp, st, cref.ctx, None, cref, None, "function")
+            if "setter" in decos:
+                continue
+            if "property" in decos:
+                ns[st.name] = property(method(cl))
+            elif "classmethod" in decos:
+                ns[st.name] = classmethod(method(cl))
+            elif "staticmethod" in decos:
+                ns[st.name] = staticmethod(lambda *a, _cl=cl, **k: interp.call(_cl, list(a), k))
+            elif decos:
+                raise Unsupported("enum class %s: method %s carries the decorator %s" % (cref.name, st.name, decos))
+            else:
+                ns[st.name] = method(cl)
+        elif isinstance(st, ast.Expr) and isinstance(st.value, ast.Constant):
+            continue
+        elif isinstance(st, ast.Pass):
+            continue
+        else:
+            raise Unsupported("enum class %s: statement %s in the class body" % (cref.name, type(st).__name__))
+    for nm, target in aliases:
+        ns[nm] = ns[target]
+    cls = _enum.EnumMeta(cref.name, (base,), ns)
+    cls._sa_mock = True          # members accept the attributes their own __init__ sets
+    cls._sa_strict_program = True   # ... and lack every other attribute for real (hasattr(member, 'to_ref') is False, not `could not analyse`)
+    cls._sa_repo_enum = cref.name
+    return cls
+
+
 class IntEnumMember(int):
     """value of a member of a repository class derived from enum.IntEnum (or an int-valued enum.Enum): compares and hashes as its int"""
     _sa_mock = True
@@ -434,6 +493,9 @@ class ModCtx(object):
             v = Closure(it, b, self, cm=_is_contextmanager(b))
         elif isinstance(b, ast.ClassDef):
             v = ClassRef(it, b, self)
+            real = build_real_enum(it, v)
+            if real is not None:
+                v = real
         elif b[0] == "import":
             v = self.world.resolve(b[1] if b[2] else b[1].split(".")[0])
         elif b[0] == "from":
@@ -552,10 +614,33 @@ class World(object):
 
 
 # --------------------------------------------------------------------------------------------- builtins the evaluator offers
+class MethodTypeMarker(object):
+    """types.MethodType of the interpreted world: a bound method of a repository class (a bound Closure) or a real bound method"""
+
+
+class FunctionTypeMarker(object):
+    """types.FunctionType of the interpreted world"""
+
+
 def _isinstance(interp):
     def f(obj, cls):
-        classes = cls if isinstance(cls, tuple) else (cls,)
+        def flat(c_):
+            if isinstance(c_, tuple):
+                for x_ in c_:
+                    for y_ in flat(x_):
+                        yield y_
+            else:
+                yield c_
+        classes = tuple(flat(cls))
         for c in classes:
+            if c is MethodTypeMarker:
+                if (isinstance(obj, Closure) and obj.bound is not None) or isinstance(obj, _types.MethodType):
+                    return True
+                continue
+            if c is FunctionTypeMarker:
+                if (isinstance(obj, Closure) and obj.bound is None) or isinstance(obj, _types.FunctionType):
+                    return True
+                continue
             if isinstance(c, ClassRef):
                 if isinstance(obj, Instance):
                     if obj._cls.is_sub(c):
@@ -564,7 +649,21 @@ def _isinstance(interp):
                     continue          # a stand-in for an object of a NON-repository type (a compiled extension object): never an instance of a repository class
                 elif getattr(obj, "_sa_mock", False):
                     raise Unsupported("isinstance of the mock %r against the repository class %s (no mock registered for it)" % (obj, c.name))
+            elif isinstance(c, AutoMock) and c._name.split(".")[0] in ("typing", "collections") and c._name.split(".")[-1] in ("Iterable", "Sized", "Callable"):
+                # structural ABCs of typing / collections.abc: decided by the protocol method
+                meth = {"Iterable": "__iter__", "Sized": "__len__", "Callable": "__call__"}[c._name.split(".")[-1]]
+                if isinstance(obj, Instance):
+                    if interp._dunder(obj, meth) is not None:
+                        return True
+                elif isinstance(obj, (Closure, ClassRef)):
+                    if meth == "__call__":
+                        return True
+                elif not isinstance(obj, AutoMock) and hasattr(obj, meth):
+                    return True
             elif isinstance(c, AutoMock):
+                import enum as _enum_
+                if isinstance(obj, (int, float, str, bytes, list, tuple, dict, set, frozenset, type(None), Instance, Closure, _enum_.Enum)) or type(obj).__module__ == "numpy":
+                    continue          # a plain value or an object of a repository class is not an instance of a class of an unmodelled library
                 raise Unsupported("isinstance against the unmodelled class %s" % c._name)
             elif isinstance(c, type):
                 if isinstance(obj, c):
@@ -597,7 +696,7 @@ class Interp(object):
         self.builtins.update(_EXC)
         self.builtins.update({"isinstance": _isinstance(self), "hasattr": self._hasattr, "getattr": self._getattr3, "setattr": self._setattr3, "delattr": lambda o, a: self.delattr_(o, a),
                               "print": lambda *a, **k: None, "True": True, "False": False, "None": None, "NotImplemented": NotImplemented,
-                              "type": self._type, "issubclass": self._issubclass, "len": self._len})
+                              "type": self._type, "issubclass": self._issubclass, "len": self._len, "dir": self._dir})
 
     # ---------------------------------------------------------------- operator protocol of repository classes
     def _dunder(self, obj, name):
@@ -616,6 +715,23 @@ class Interp(object):
             if isinstance(m, Closure) and m.kind == "function":
                 return m.bind(obj)
         return None
+
+    def _dir(self, o):
+        """dir(obj) for an instance of a repository class: instance attributes and the members of its classes (no object dunders)"""
+        if isinstance(o, Instance):
+            names = set(o._attrs)
+            todo, seen = [o._cls], []
+            while todo:
+                c = todo.pop(0)
+                if c in seen or not isinstance(c, ClassRef):
+                    continue
+                seen.append(c)
+                names |= {k for k in c.members() if not k.endswith(".setter")}
+                todo.extend(c.bases())
+            return sorted(names)
+        if isinstance(o, (AutoMock, ClassRef, Closure, RepoModule)):
+            raise Unsupported("dir(%r)" % (o,))
+        return dir(o)
 
     def _len(self, o):
         m = self._dunder(o, "__len__")
@@ -668,6 +784,8 @@ class Interp(object):
 
     # ---------------------------------------------------------------- attribute protocol
     def getattr_(self, obj, attr, node=None):
+        if attr == "__dict__" and isinstance(obj, Instance):
+            return obj._attrs           # the instance dictionary itself (options classes store through self.__dict__[name] = value)
         if attr.startswith("__") and attr not in ("__name__", "__class__") and not (attr == "__init__" and isinstance(obj, (Instance, ClassRef, SuperProxy))) \
                 and not (attr == "__mro__" and isinstance(obj, ClassRef)):
             special = None
@@ -834,13 +952,25 @@ class Interp(object):
         if any(isinstance(a, Instance) for a in args) and any(f is _PURE.get(n_) for n_ in _ITER_CONSUMERS):
             # list(obj) / sorted(obj) / set(obj) ... on an instance of a repository class that defines __iter__: iterate it by its own method
             args = [list(self.iterate(a, node)) if self._dunder(a, "__iter__") is not None else a for a in args]
+        elif f is dict and len(args) == 1 and isinstance(args[0], Instance):
+            # dict(obj): the mapping protocol (keys() + __getitem__) if the class has it, else an iterable of pairs
+            kf, gi = self._dunder(args[0], "keys"), self._dunder(args[0], "__getitem__")
+            if kf is not None and gi is not None:
+                args = [[(k_, gi(k_)) for k_ in self.iterate(kf(), node)]]
+            elif self._dunder(args[0], "__iter__") is not None:
+                args = [list(self.iterate(args[0], node))]
         try:
             return f(*args, **kwargs)
         except (ProgramError, Unsupported, _Return, _Break, _Continue):
             raise
         except PROGRAM_EXC as e:
             raise ProgramError(e, getattr(node, "lineno", None))
-        except (TypeError, AttributeError) as e:
+        except TypeError as e:
+            plain = all(isinstance(a, (int, float, str, bool, bytes, list, tuple, dict, set, frozenset, type(None))) for a in list(args) + list(kwargs.values()))
+            if plain and any(f is v_ for v_ in _PURE.values()):
+                raise ProgramError(e, getattr(node, "lineno", None))       # dict(3.5), int('x'): the program's own error, it may catch it
+            raise Unsupported("call %s at line %s: %s: %s" % (unparse(node)[:80] if node is not None else f, getattr(node, "lineno", "?"), type(e).__name__, e))
+        except AttributeError as e:
             raise Unsupported("call %s at line %s: %s: %s" % (unparse(node)[:80] if node is not None else f, getattr(node, "lineno", "?"), type(e).__name__, e))
 
     def call_closure(self, c, args, kwargs, suspender=None):
@@ -1242,6 +1372,9 @@ class Interp(object):
                         break
                     g = g.parent
                 inst = first
+            import enum as _enum_
+            if isinstance(inst, _enum_.Enum) and getattr(type(inst), "_sa_repo_enum", None):
+                return super(type(inst), inst)           # a method of a repository enum class (built as a real Enum): the real super object (value, name)
             if not isinstance(start, ClassRef) or not isinstance(inst, Instance):
                 raise Unsupported("super() on unmodelled class")
             return SuperProxy(inst, start)
@@ -1976,5 +2109,6 @@ def stdlib_overrides(state=None):
     op = Namespace("operator", **{k: getattr(operator, k) for k in ("itemgetter", "attrgetter", "add", "sub", "mul", "eq", "ne", "lt", "le", "gt", "ge", "not_", "truth")})
     warnings_ns = Namespace("warnings", warn=lambda *a, **k: None, simplefilter=lambda *a, **k: None, filterwarnings=lambda *a, **k: None)
     ov = {"numpy": numpy_namespace(), "scipy": scipy_ns, "scipy.sparse": sparse, "scipy.sparse.csr": sparse.csr, "logging": logging_ns, "warnings": warnings_ns,
-          "itertools": it, "math": m, "collections": coll, "operator": op}
+          "itertools": it, "math": m, "collections": coll, "operator": op,
+          "types": Namespace("types", MethodType=MethodTypeMarker, FunctionType=FunctionTypeMarker)}
     return ov, state
